@@ -84,6 +84,7 @@ func writeEvidence(c *Check, res *checkResult) {
 		"pool_items_max":                     a.PoolItemsMax,
 		"corpus":                             c.CStats,
 		"corpus_growth":                      c.Grow,
+		"literals_new_vs_baseline_tree":      c.Novel,
 		"capacity_knobs":                     map[string]interface{}{"found": e.Report.Knobs, "variant": c.Knob},
 		"reference": map[string]interface{}{
 			"fresh_process_evaluations": c.Ref.FreshChecked, "order_disagreements": c.Ref.OrderDisagree, "fresh_disagreements": c.Ref.FreshDisagree, "excluded_inputs": c.Ref.ExcludedInputs, "process_killing_inputs": c.Ref.Crashers,
